@@ -150,7 +150,7 @@ impl Prop for C16 {
          every group size 1..=18 in every group, and random sequences of length 0-70 (incl. sequences that fill one group with 10-18 kinds) with generated values (strings without backslash / NUL, tag lists incl. empty, any u32) x 9 regions x random seed addresses: \
          the request sent by query_specific is parsed by a reference grammar of the Master Server Query Protocol (31 region 'ip:port' 00 filter 00; \\\\key\\\\value \
          conditions; \\\\nor\\\\N and \\\\nand\\\\N groups of N conditions) and must denote exactly the model's three groups (last insertion of a kind wins, compared as \
-         sets). Paging: 1-6 pages of 0-230 distinct entries (unrelated addresses; one host with many neighbouring ports; one port on neighbouring hosts; three hosts taking turns) with the 0.0.0.0:0 terminator at the end of the last page (also a terminator-only page): query() must return \
+         sets). Paging: 1-6 pages of 0-230 distinct entries (unrelated addresses; one host with many neighbouring ports; one port on neighbouring hosts; three hosts taking turns; 0.0.0.0 with real ports; real addresses with port 0) with the 0.0.0.0:0 terminator at the end of the last page (also a terminator-only page): query() must return \
          the concatenation in order without the terminator, send exactly one request per page, seed request k+1 with the last address of page k and send nothing after \
          the terminator. non-trivial = a nand/nor insertion or at least two pages; distinct = digest of the case"
             .into()
@@ -194,7 +194,10 @@ impl Prop for C16 {
                                 n = n.wrapping_add(2);
                                 let x = n.wrapping_mul(2_654_435_761);
                                 let k = n >> 1;
-                                match salt % 4 {
+                                match salt % 6 {
+                                    // the unspecified address with a real port, and a real address with port 0: neither is the 0.0.0.0:0 terminator
+                                    4 => ([0, 0, 0, 0], 1 + (k % 0xFFFF) as u16),
+                                    5 => ([10, (k >> 16) as u8, (k >> 8) as u8, k as u8], 0),
                                     // unrelated addresses
                                     0 => ([(x >> 24) as u8 | 1, (x >> 16) as u8, (x >> 8) as u8, x as u8], (n >> 3) as u16 | 1),
                                     // one host runs many servers on neighbouring ports (consecutive entries share the address)
